@@ -363,7 +363,7 @@ type badBlock struct {
 const level0Horizon = 10 * time.Minute
 const refineHorizon = 3 * time.Minute
 const singleHorizon = 60 * time.Second // one tuple costs microseconds
-const maxSingles = 256
+const maxSingles = 64
 const maxBlocksPerFn = 64
 
 func main() {
